@@ -197,6 +197,9 @@ func (f *frame) inlineCall(st *State, ins *ssa.Call, callee *ssa.Function, args 
 		*st = *rets[0].st
 		return tupleOf(rets[0].vals)
 	}
+	if ins != nil && len(rets) <= 3 && !ex.initMode && forkWorthwhile(st, rets) {
+		return VFork{rets}
+	}
 	return f.mergeReturns(st, base, rets, callee)
 }
 
@@ -1021,6 +1024,32 @@ func sameVal(a, b Val) bool {
 		return ok && x.Ref == y.Ref && x.Field == y.Field
 	case nil:
 		return b == nil
+	}
+	return false
+}
+
+// forkWorthwhile: merging return paths replaces differing slice headers by fresh symbols, which
+// loses the exact offset arithmetic that quantified specifications rely on. Paths are continued
+// separately when a slice-valued result or a slice-valued variable of the caller differs.
+func forkWorthwhile(orig *State, rets []retPath) bool {
+	for i := range rets[0].vals {
+		if _, ok := rets[0].vals[i].(VSlice); ok {
+			for _, r := range rets[1:] {
+				if !sameVal(r.vals[i], rets[0].vals[i]) {
+					return true
+				}
+			}
+		}
+	}
+	for c, v := range orig.cells {
+		if _, ok := v.(VSlice); !ok {
+			continue
+		}
+		for _, r := range rets {
+			if !sameVal(r.st.cells[c], v) {
+				return true
+			}
+		}
 	}
 	return false
 }
